@@ -3830,7 +3830,9 @@ PPL::Polyhedron::topological_closure_assign() {
     return;
   }
   // Any empty or zero-dimensional polyhedron is closed.
-  if (marked_empty() || space_dim == 0) {
+  // NOTE: emptiness has to be detected here, as relaxing the strict
+  // inequalities of an unsatisfiable system can make it satisfiable.
+  if (space_dim == 0 || is_empty()) {
     return;
   }
 
